@@ -11,6 +11,8 @@ import (
 	cryptoenc "github.com/cometbft/cometbft/crypto/encoding"
 	servertypes "github.com/cosmos/cosmos-sdk/server/types"
 	sdk "github.com/cosmos/cosmos-sdk/types"
+
+	"github.com/haqq-network/haqq/app"
 )
 
 // BlkStep builds a block step.
@@ -207,4 +209,42 @@ func (w *World) BuildCosmosTxOn(r *Replica, a *Account, o TxOpts, msgs ...sdk.Ms
 	w.Reps[0] = r
 	defer func() { w.Reps[0] = old }()
 	return w.BuildCosmosTx(a, o, msgs...)
+}
+
+// DiffStoreKV lists (at most n) keys whose values differ between the committed
+// stores of two applications.
+func DiffStoreKV(a, b *app.Haqq, store string, n int) []string {
+	ka, kb := a.GetKey(store), b.GetKey(store)
+	if ka == nil || kb == nil {
+		return nil
+	}
+	sa := a.CommitMultiStore().GetKVStore(ka)
+	sb := b.CommitMultiStore().GetKVStore(kb)
+	var out []string
+	seen := map[string]bool{}
+	ia := sa.Iterator(nil, nil)
+	for ; ia.Valid() && len(out) < n; ia.Next() {
+		k := ia.Key()
+		seen[string(k)] = true
+		vb := sb.Get(k)
+		if !bytes.Equal(ia.Value(), vb) {
+			out = append(out, fmt.Sprintf("%x: %x | %x", k, trimB(ia.Value()), trimB(vb)))
+		}
+	}
+	ia.Close()
+	ib := sb.Iterator(nil, nil)
+	for ; ib.Valid() && len(out) < n; ib.Next() {
+		if !seen[string(ib.Key())] {
+			out = append(out, fmt.Sprintf("%x: <absent> | %x", ib.Key(), trimB(ib.Value())))
+		}
+	}
+	ib.Close()
+	return out
+}
+
+func trimB(b []byte) []byte {
+	if len(b) > 80 {
+		return b[:80]
+	}
+	return b
 }
